@@ -73,7 +73,8 @@ def value_table(s, d):
     if n == "paste":
         return [os.path.join(d, "pasteA.ini"), os.path.join(d, "pasteB.ini")], [7]
     if v == "validate_string":
-        return ["valA-" + n, "valB-" + n], [7]
+        # a value with a blank and a quote: in GUNICORN_CMD_ARGS it has to be shell-quoted
+        return ["val A'-" + n, "valB-" + n], [7]
     if v == "validate_list_string":
         if n == "bind":
             return [["127.0.0.1:8001"], ["127.0.0.1:8002", "unix:/tmp/x.sock"]], [7]
